@@ -639,3 +639,8 @@ def _append(ex, st, l, x):
     st.assume(r[n] == xe)
     st.assume(z3.ForAll([j], z3.Implies(z3.And(0 <= j, j < n), r[j] == l.e[j])))
     return VList(l.elem_ty, r)
+
+
+@SPEC.fn("exc_code")
+def _exc_code(ex, st, name):
+    return VOpaque("exc", z3.IntVal(SPEC.exception_codes[z3.simplify(name.e).as_string()]))
